@@ -150,6 +150,41 @@ PROPS.update({
         "explanation": "oracle: ListSymbols(tbk) == bucket directories holding year files on disk == listing of catalog.NewDirectory on the same disk, and the same for year files; no panic, no hang",
         "budget": {"quick": 35, "thorough": 600},
     },
+    "C06": {
+        "level": "fault_enumeration", "engine": "CRASH",
+        "rule": ("a valid WAL with 1-12 transaction groups (fixed+variable, multi-bucket, long paths / many columns in 35% of runs) is produced by the real server; the image keeps the WAL and the bucket "
+                 "files but drops every primary data write, so replay has real work; damage operators on the WAL bytes: truncation at EVERY offset (exhaustive up to 700 bytes, 4000 in thorough; "
+                 "record boundaries +-2 and 200 sampled offsets beyond), a bit flip at every byte of every record header / length / tgid / checksum plus sampled payload bytes, 1-64 garbage bytes "
+                 "inserted at and inside every record, each TG duplicated, adjacent TGs swapped; the real startup replay runs on each damaged image; "
+                 "distinct_nontrivial = distinct (operator, offset, length, detail, #TGs)"),
+        "faults": ["WAL truncation at every offset", "bit flips", "inserted garbage", "duplicated record", "swapped records", "restart with replay"],
+        "assumptions": [A_KILL, "the WAL is walked with a 40-line reader of the documented record format (docs/design/durable_writes_design.txt) only to locate record boundaries; without a background writer the k-th TGDATA record belongs to the k-th acknowledged write request"],
+        "explanation": "oracle: startup returns (no panic, no hang within the step cap); every TG whose data and commit record lie wholly before the first damaged byte is visible after replay; no record id of the TG containing the damage is visible; later TGs are unconstrained",
+        "budget": {"quick": 45, "thorough": 900},
+    },
+    "C28": {
+        "level": "fault_enumeration", "engine": "CRASH",
+        "rule": ("histories with adversarial schemas (symbols/attribute groups up to 230 bytes, 20-140 columns, names up to the header's 32 bytes, all element types, one >=64 KiB transaction in 25% of runs); "
+                 "for every history: each TGDATA record is decoded with the real executor.ParseTGData and compared with the target bucket's schema/record type, and the image 'WAL fsynced, "
+                 "no primary data write' (one crash window, at the end and at 40% of the TG boundaries) is replayed by the real startup code and compared with what the live write path stored; "
+                 "distinct_nontrivial = distinct (#TGs, window, #buckets)"),
+        "faults": ["process kill exactly between WAL fsync and the first primary write", "restart with replay"],
+        "assumptions": [A_KILL],
+        "explanation": "oracle: two real code paths compared (live primary write vs WAL replay), no model of the encoding: rows equal including timestamps; decoded data shapes == bucket schema",
+        "budget": {"quick": 35, "thorough": 600},
+    },
+    "C34": {
+        "level": "fault_enumeration", "engine": "CRASH",
+        "rule": ("two lifetimes per history (the second starts on a crash image of the first, so leftover WAL files in the states the protocol really produces are present: header only, torn last record, "
+                 "REPLAYINPROCESS, replayed-not-deleted); 5 (quick) / 16 (thorough) outer crash points k per lifetime; for each, the real recovery runs and ITS operation log is recorded; "
+                 "then EVERY prefix j of recovery's own mutating operations is turned into an image (nested crash), the server is restarted on it, and in 25% of cases and always at the end restarted once more; "
+                 "distinct_nontrivial = distinct nested image hashes"),
+        "faults": ["process kill at sampled syscall prefixes", "process kill at EVERY syscall prefix of startup recovery itself", "second and third restart", "leftover WAL files from an earlier crashed instance"],
+        "assumptions": [A_KILL],
+        "explanation": ("oracle: after the nested restart C01's and C02's oracles hold (nothing acknowledged lost, nothing duplicated); in every recovery log the instance's own WAL is never removed, renamed or "
+                        "written by replay code, an old WAL is unlinked only after a global sync that follows the last primary write; a further restart writes to no primary file"),
+        "budget": {"quick": 45, "thorough": 900},
+    },
     "C09": {
         "level": "exploration", "engine": "MODEL", "rule": MODEL_RULE,
         "faults": ["none (fault-free configuration)", "graceful restart", "compression on/off", "highly compressible payload bursts"],
